@@ -50,6 +50,12 @@ CHECKS = {
         text='All sequences of up to 2 (thorough 3) of 41 command templates (pipelines, every redirection form on externals and builtins, builtins alone and in pipelines, substitutions of externals / builtins / pipelines, here-strings, failing, not-found and unopenable-target commands, a background job, source, arithmetic, history) run in one real shell with a probe after every command: the shell descriptor table (read from /proc by a helper the shell starts) must stay equal to the initial one and every started program must have exactly descriptors 0,1,2. Every soft RLIMIT_NOFILE value 4..40 x 13 pipeline templates (1..6 stages, with capture, with here-string): clean non-zero failure when pipe creation fails, no hang, descriptor table unchanged, next command works.',
         note='-c mode (no history database / line editor descriptors); limits below 4 cannot be probed; for capture templates the failing pipeline is the inner one, so the line status is not required to be non-zero.',
         ref='DESIGN.md §4 C08'),
+    'C09': dict(
+        engine='E2 explicit-state BFS over the real shell (reference-model state dedup), real binary',
+        technique='explicit-state model checking: BFS over the finite state space of variables / exported flags / cwd / previous dir with every operation executed on the real binary from every distinct state (thorough: to the fixpoint), compared with a reference model after every step',
+        text='22 operations (assignment with blank / empty / = and : values, export, unset, prefix assignment, read into one and two names, cd absolute / relative / .. / through a symlink / no argument / - / missing / non-directory) over names A and B and a generated directory tree are executed by the real binary from every distinct reference-model state: quick to depth 4, thorough to the fixpoint (588 states, 12.7 k transitions). After each operation a helper started by the shell records the "$A|$B|$PWD" expansion, its environment, its cwd; a relative redirection must land in the model cwd, a failed cd must return non-zero and change nothing, a prefix assignment must be seen by that command only.',
+        note='Names, values and tree are the bound; states are reached by replaying their shortest history; state abstraction = the reference-model state.',
+        ref='DESIGN.md §4 C09'),
     'C10': dict(
         engine='E1 bounded-exhaustive input sweep (in-process plan) + real binary',
         technique='bounded-exhaustive enumeration of all words built from reference/literal segments x quote forms x variable environments, planned by the real code against a reference single-pass expander; watchdog for non-termination; conformance replay through the real binary',
